@@ -589,6 +589,9 @@ def check_seq(seq, stats):
                             hits.append(hit("C01", seq, no, raw, f"the entity the direct handle {di['words']} was obtained for has been destroyed, yet the handle is accepted by {acc_fields[0]}: a destroyed entity's handle must be rejected by every lookup path, whatever its kind", "stale-direct-accepted"))
                     if not removed_since and rej_fields:
                         hits.append(hit("C09", seq, no, raw, f"direct handle {di['words']} is rejected by {rej_fields[0]} although its archetype saw no removal since it was issued", "direct-dies-early"))
+                        vrej_ = [n_ for n_ in rej_fields if n_[-1] in ("v", "b")]
+                        if vrej_ and w.by_token([t_ for t_ in di["toks"] if t_ != "0"]) is not None:
+                            hits.append(hit("C02", seq, no, raw, f"the entity the direct handle {di['words']} was issued for is alive and nothing was removed from its archetype since, yet {vrej_[0]} (view / borrow through that handle) returns nothing instead of the entity's own components", "direct-path-refused"))
                         if di.get("from_loop") == "iterd":
                             hits.append(hit("C07", seq, no, raw, f"the direct handle {di['words']} that ecs_iter_destroy! handed to its closure does not designate the entity being visited: it is rejected by {rej_fields[0]} although nothing was removed afterwards", "loop-direct-stale"))
                     if not removed_since:
